@@ -78,15 +78,23 @@ def run_shard(sh):
     maxrows = 3 if sh['tier'] == 'thorough' else 2
     tabsA = list(qcheck.tables_upto(sp_['rowsA'], maxrows))
     tabsB = list(qcheck.tables_upto(sp_['rowsB'], maxrows))
+    # beyond the exhaustive bound: a few larger tables (3-4 matches for one key, bNR up to 5) so that "first two matches" / "third record" slips show in every tier
+    k = sp_['k']
+    bigB = [[k, 'm1'], ['zz', 'm2'], [k, 'm3'], [k, 'm4'], ['zz', 'm5']]
+    bigA = [[k, 'q'], ['zz', 'm5'], ['none', 'x'], [k, 'm4'], [k, 'm1']]
+    tabsB_extra = [bigB, bigB[::-1], bigB[:4]]
+    tabsA_extra = [bigA, bigA[:2], bigA[2:]]
     jscases = []
     for qi, q in enumerate(sp_['qs'][sh['lo']:sh['hi']]):
         gi = sh['lo'] + qi
         sp = refql.Spelling(eq_single=(gi % 2 == 1), swap_on=(gi % 3 == 1))
         text = refql.render(q, 'py', sp)
-        for B in tabsB:
-            for A in tabsA:
+        for B, A in [(B_, A_) for B_ in tabsB for A_ in tabsA] + [(B_, A_) for B_ in tabsB_extra for A_ in tabsA_extra]:
+            if True:
                 exp, got, why = qcheck.run_case(res, q, A, B, diagnose=diagnose, text=text)
                 jscases.append((q, A, B, None, None))
+                if len(B) > maxrows:
+                    res.feat('larger_tables')
                 res.states += 1
                 res.transitions += (1 if A else 0) + (1 if B else 0)
                 if why is None:
@@ -139,7 +147,7 @@ def main(tier, seed):
              'states = (query, A, B) nodes, transitions = row-append edges in either table; non-trivial = some A record has >= 2 matches or none',
         assumptions=['RefQL nested-loop pairing in B order is the statement of JOIN', 'ORDER BY on b-fields only under join kinds that never produce None keys'],
         extra={'queries': len(sp_['qs'])},
-        min_features={'some_A_with_2plus_matches': 1000, 'some_A_unmatched': 1000, 'ref_error_runtime': 1000, 'ref_error_runtime_b': 100})
+        min_features={'larger_tables': 1000, 'some_A_with_2plus_matches': 1000, 'some_A_unmatched': 1000, 'ref_error_runtime': 1000, 'ref_error_runtime_b': 100})
 
 
 def replay(rep):
